@@ -155,6 +155,12 @@ class CoderState(object):
         self.back_reference_boundary = 0
         self.back_referenced_descriptors = None
 
+    def cancel_new_refvals(self):
+        """
+        Cancel all new reference values defined by 203YYY (operator 203000).
+        """
+        self.new_refvals = {}
+
     # noinspection PyAttributeOutsideInit
     def switch_subset_context(self, idx_subset):
         """
@@ -538,7 +544,7 @@ class Coder(object):
             else:
                 state.nbits_of_new_refval = operand_value
                 if operand_value == 0:
-                    state.new_refvals = {}
+                    state.cancel_new_refvals()
 
         elif operator_code == 204:  # associated field
             if operand_value == 0:
